@@ -622,7 +622,7 @@ class CallMixin:  # pylint:disable=too-many-public-methods
                     return args[0] if args else None
                 if attr == "orig_exc" and "orig_exc" not in v.fields:
                     return Opaque("orig_exc")
-                if attr in ("scan_values", "iter_subtrees", "copy", "find_data", "pretty"):
+                if attr in ("scan_values", "iter_subtrees", "copy", "find_data", "find_pred", "iter_subtrees_topdown", "pretty"):
                     return BoundExt(v, attr)
             if default is not KeyError:
                 return default
@@ -1111,6 +1111,19 @@ class CallMixin:  # pylint:disable=too-many-public-methods
             return one_shot(subtrees(tree))  # lark returns a one-shot reversed(...) iterator
         if a == "copy":
             return Obj("lark.Tree", {"data": tree.fields.get("data"), "children": tree.fields.get("children")})
+        if a == "find_data":
+            return one_shot(t_ for t_ in subtrees(tree) if self.eq(t_.fields.get("data"), args[0]))  # lark: a filter object over iter_subtrees()
+        if a == "find_pred":
+            return one_shot(t_ for t_ in subtrees(tree) if self.truth(self.call(args[0], [t_], {}, node, frame)))
+        if a == "iter_subtrees_topdown":
+            def topdown(t: Obj):
+                yield t
+                for c in t.fields.get("children") or []:
+                    if isinstance(c, Obj) and c.cls == "lark.Tree":
+                        yield from topdown(c)
+            return one_shot(topdown(tree))
+        if a == "scan_values" and False:
+            pass
         raise Unsupported(f"Tree.{a}")
 
     # ------------------------------------------------------------------ external functions
